@@ -35,13 +35,13 @@ def instances():
     e.id = "op.exp.ii.neg"; e.defs = e.defs + ["VX_B_NEGATIVE=1"]
     e.bounds = "all int64 bases, every negative exponent"
     out.append(e)
-    for n in (0, 1, 2, 3, 5, 8, 13, 63, 64):
-        e = binop("exp", "OpEXPExpression", "ORC_EXP", "i", "i", ["C03", "C01", "C02", "C05"], timeout=600, tier="quick" if n in (0, 3, 13, 64) else "thorough")
+    for n in (0, 1, 2, 3, 5, 8, 13, 63, 64, 4294967296, 4294967299, 9223372036854775807):
+        e = binop("exp", "OpEXPExpression", "ORC_EXP", "i", "i", ["C03", "C01", "C02", "C05"], timeout=600, tier="quick" if n in (0, 3, 13, 64, 4294967299) else "thorough")
         e.id = "op.exp.ii.e%s" % str(n).replace("-", "m")
-        e.defs = e.defs + ["VX_FIX_B_I=%d" % n]
-        e.unwindset = ["_ZNK4bloc15OpEXPExpression5valueERNS_7ContextE.0:9"]
+        e.defs = e.defs + ["VX_FIX_B_I=%dL" % n] + (["VX_FIX_A_I=3L"] if n > 64 else [])
+        e.unwindset = ["_ZNK4bloc15OpEXPExpression5valueERNS_7ContextE.0:%d" % (max(9, n.bit_length() + 2))]
         e.unwind = 66
-        e.bounds = "all int64 bases, exponent %d (instance parameter); value compared with the %d-fold product mod 2^64" % (n, n)
+        e.bounds = ("all int64 bases, exponent %d (instance parameter); value compared with the %d-fold product mod 2^64" % (n, n)) if n <= 64 else ("base 3, exponent %d: the whole 64-bit exponent is used (with a symbolic base the equivalence of two 34-deep multiplication chains is beyond both back ends)" % n)
         out.append(e)
     e = binop("exp", "OpEXPExpression", "ORC_EXP", "i", "i", ["C03", "C01", "C02", "C05"], timeout=3600, tier="thorough")
     e.id = "op.exp.ii.full"
